@@ -124,6 +124,7 @@ fn dispatch(st: &mut State, line: &str) -> String {
         "stats" => misc::cmd_stats(rest),
         "merge" => misc::cmd_merge(rest),
         "mergebig" => misc::cmd_mergebig(rest),
+        "report" => misc::cmd_report(rest),
         "squeue" => misc::cmd_squeue(rest),
         "grease" => misc::cmd_grease(rest),
         "serve" => server::cmd_serve(st, rest),
